@@ -132,6 +132,12 @@ def enumerated(tier):
         t2 = dict(tree, **{"render.tmp": "rendered"})
         yield dict(base, tree=t2, plain_create_between=True, spell="abs", rounds=[
             {"renames": [["a.mov", "a final.mov"], ["render.tmp", "d/render final.mov"], ["b.mov", "b2.mov"]], "ignore_old": pat, "new": [], "formats": ["md5"], "n": False, "newdir": False, "back": False}])
+    # renames that change the letter case only (other spellings of the same letters are other files here)
+    t3 = {"A001C003.MOV": "clip", "Clips": {"Take.wav": "take", "other.wav": "o"}}
+    for plain in (False, True):
+        yield dict(base, tree=t3, plain_create_between=plain, spell="abs", rounds=[
+            {"renames": [["A001C003.MOV", "a001c003.mov"], ["Clips/Take.wav", "Clips/take.wav"]], "new": [], "formats": ["md5"], "n": False, "newdir": False, "back": False},
+            {"renames": [["a001c003.mov", "A001c003.Mov"]], "new": ["Clips/TAKE.WAV"], "formats": ["md5"], "n": False, "newdir": False, "back": False}])
     for sf in (0, 1, 3):
         yield dict(base, rounds=[dict(two_steps[0], formats=["xxh64"], n=True)], plain_create_between=True, spell="abs", sf_generation=sf)
     # a nested child history: a file inside it is renamed to a name that, relative to the child, equals a path the parent records
